@@ -325,6 +325,38 @@ def stepUpd (cfg : Cfg) (now : Nat) (s : State) (p : Peer) (u : ChanUpd) : StepO
                 .ok, [.cu u]⟩
             else ⟨s, .ok, []⟩
 
+/-! ### the graph builder's own entry points for channel updates
+
+`Builder.ApplyChannelUpdate` (updates carried in onion failure messages, called from routing) and
+`Builder.UpdateEdge` (local callers) reach `Builder.updateEdge` without the gossiper's
+`IsStaleEdgePolicy` pre-filter.  `ApplyChannelUpdate` looks the channel up, picks the key by the
+direction bit and runs `ValidateChannelUpdateAnn` (fields, then signature); it checks neither the
+chain hash nor zero / far-future timestamps.  `UpdateEdge` trusts its caller and only applies the
+freshness rule of `updateEdge` (unknown or zombie channel: ignored; timestamp not strictly newer:
+outdated). -/
+
+inductive EdgeRes where
+  | ok | ignored | outdated
+  deriving DecidableEq, Repr
+
+/-- `Builder.updateEdge` on the policy carried by `u`. -/
+def updateEdge (s : State) (u : ChanUpd) : State × EdgeRes :=
+  match lookup u.scid s.g.chans with
+  | none => (s, .ignored)
+  | some _ =>
+    match lookup (u.scid, dirOf u.cf) s.g.pols with
+    | some old => if u.ts ≤ old.ts then (s, .outdated) else (s.applyUpd u, .ok)
+    | none => (s.applyUpd u, .ok)
+
+/-- `Builder.ApplyChannelUpdate`; the flag is its boolean result. -/
+def applyChannelUpdate (s : State) (u : ChanUpd) : State × Bool :=
+  match lookup u.scid s.g.chans with
+  | none => (s, false)
+  | some ci =>
+    if !fieldsOk ci.cap u then (s, false)
+    else if !verify (owner ci (dirOf u.cf)) u.digest u.sig then (s, false)
+    else ((updateEdge s u).1, true)
+
 /-! ### node announcement (`handleNodeAnnouncement`) -/
 
 /-- `IsPublicNode` for nodes that have no channel with us: some channel has it as an endpoint. -/
